@@ -5,6 +5,7 @@ package proxy
 import (
 	"fmt"
 	"math/big"
+	"net/http"
 	"regexp"
 	"strconv"
 	"strings"
@@ -89,6 +90,80 @@ func scenarioRangeE2E(c *vrun.Ctx) {
 			}
 		}
 		env.close()
+	}
+	// ---- a ranged GET for a key that is not stored goes upstream; the origin refuses it (416) and,
+	// with retry_on_range_416, the proxy asks again without Range. Whatever comes back last is what
+	// the client gets: status, headers and body of ONE origin response (C08), for every kind of
+	// final answer, storable or not ----
+	type fin struct {
+		name   string
+		status int
+		cc     string
+	}
+	fins := []fin{{"200-storable", 200, "max-age=600"}, {"200-no-store", 200, "no-store"}, {"404", 404, "no-store"}, {"503", 503, "no-store"}, {"204", 204, "no-store"}}
+	for _, retry := range []bool{false, true} {
+		for _, ignore := range []bool{false, true} {
+			env := newEnv(envOpts{Backend: p.Backend, Retry416: retry, IgnoreCC: ignore, Server: true, DefaultMaxAgeS: 3600})
+			for _, f := range fins {
+				caseNo++
+				if !c.Mine(caseNo) {
+					continue
+				}
+				c.Case()
+				uri := env.uniq("u")
+				name := "u" + strconv.Itoa(env.seq)
+				res := &vnet.Res{Name: name, Size: 24, Status: f.status, NoConditionals: true, Headers: vnet.H{{"Cache-Control", f.cc}, {"X-Final", "token-" + f.name}, {"Content-Type", "application/x-final"}}}
+				if f.status == 204 {
+					res.Size = 0
+				}
+				env.origin.Put(uri, res)
+				env.origin.Custom = func(o *vnet.Origin, req *http.Request, rec *vnet.ReqRec) *http.Response {
+					if req.Header.Get("Range") == "" || !strings.HasSuffix(req.URL.Path, uri) {
+						return nil
+					}
+					h := http.Header{}
+					h.Set("Content-Range", "bytes */24")
+					h.Set("X-Refusal", "token-416")
+					h.Set("Content-Type", "application/x-refusal")
+					return vnet.MakeResponse(416, h, []byte("range not satisfiable"), false, -1)
+				}
+				desc := fmt.Sprintf("retry_on_range_416=%v ignore_cache_control=%v; cold key, Range: bytes=100-200 refused with 416, a request without Range is answered %s", retry, ignore, f.name)
+				resp, reqs := env.do("GET", uri, vnet.H{{"Range", "bytes=100-200"}}, "")
+				env.origin.Custom = nil
+				c.Outcome(fmt.Sprintf("upstream-416 retry=%v final=%s -> %d (%d upstream)", retry, f.name, resp.Status, len(reqs)))
+				if resp.Err != "" || resp.Dropped {
+					c.SetCase(desc)
+					c.Violation("C08/e2e/416-retry/no-response", "the client received no well-formed response: "+resp.Err+" | "+desc, nil)
+					continue
+				}
+				if len(reqs) == 0 {
+					continue
+				}
+				last := reqs[len(reqs)-1]
+				wantBody, wantTok, wantCT := "range not satisfiable", "", "application/x-refusal"
+				if last.Status != 416 {
+					wantTok, wantCT = "token-"+f.name, "application/x-final"
+					wantBody = string(vnet.Body(name, 1, 24)) // the scripted origin sends the resource body with every status
+					if f.status == 204 {
+						wantBody = ""
+					}
+				}
+				if resp.Status != last.Status {
+					c.SetCase(desc)
+					c.Violation("C08/e2e/416-retry/status-not-of-the-relayed-response", fmt.Sprintf("the last origin answer of the exchange was %d, the client received status %d (X-Final=%q, X-Refusal=%q, %d body bytes) | %s", last.Status, resp.Status, resp.Header.Get("X-Final"), resp.Header.Get("X-Refusal"), len(resp.Body), desc), nil)
+					continue
+				}
+				if resp.Header.Get("X-Final") != wantTok || resp.Header.Get("Content-Type") != wantCT {
+					c.SetCase(desc)
+					c.Violation("C08/e2e/416-retry/headers-of-another-response", fmt.Sprintf("status %d delivered with X-Final=%q Content-Type=%q, expected %q / %q | %s", resp.Status, resp.Header.Get("X-Final"), resp.Header.Get("Content-Type"), wantTok, wantCT, desc), nil)
+				}
+				if resp.Body != wantBody {
+					c.SetCase(desc)
+					c.Violation("C08/e2e/416-retry/body-of-another-response", fmt.Sprintf("status %d delivered with body %q, expected %q | %s", resp.Status, resp.Body, wantBody, desc), nil)
+				}
+			}
+			env.close()
+		}
 	}
 	c.Res.Bounds["range_representatives"] = len(rangeReps)
 }
